@@ -8,6 +8,7 @@
 #include <cstring>
 #include <functional>
 #include <random>
+#include <sstream>
 #include <string>
 #include <vector>
 #include <quadmath.h>
@@ -175,6 +176,20 @@ template <class TM, class TO> static void maps_real(uint64_t seed, int n) {
     printf("{\"e\":\"MapReal\",\"model\":\"%s\",\"fn\":\"%s\",\"num\":\"%s\",\"ov\":\"%s\",\"via\":\"%s\",\"n\":%ld,\"nonfinite\":%ld,\"ulps\":%ld,\"witness\":\"%La\"}\n", model == 0 ? "elastic" : model == 1 ? "compressible" : "incompressible",
            fn ? "inverse" : "forward", NN<TM>::c, NN<TO>::c, via ? "base" : "direct", cnt, nonfinite, (long)std::ceil(std::min(worst, 1e9)), wit); }
 }
+// ---- beyond the listed properties: GetType and the printed / serialised forms of the three models (their calls are in scope of C20 through the sanitized re-run) ----
+static std::string jesc(const std::string& s) { std::string o; char b[8]; for (unsigned char c : s) { if (c == '"' || c == '\\') { o += '\\'; o += (char)c; } else if (c < 0x20) { snprintf(b, 8, "\\u%04x", c); o += b; } else if (c >= 0x80) { if ((c & 0xC0) != 0x80) o += '?'; } else o += (char)c; } return o; }
+template <class M, class P1, class P2> static void model_text_one(const char* mn, const char* num, const M& m, const ConstitutiveModel::Type expect, const P1& p1, const P2* p2) {
+  const ConstitutiveModel& base = m; std::ostringstream os; os << m; std::string forms[4] = {base.Print(), base.JSON(), base.XML(), base.YAML()}; static const char* FN[4] = {"Print", "JSON", "XML", "YAML"};
+  std::string parts1[4] = {p1.Print(), p1.JSON(), p1.XML(), p1.YAML()}; std::string parts2[4]; if (p2) { parts2[0] = p2->Print(); parts2[1] = p2->JSON(); parts2[2] = p2->XML(); parts2[3] = p2->YAML(); }
+  std::string abbr(Abbreviation(base.GetType()));
+  for (int f = 0; f < 4; f++) { size_t a = forms[f].find(parts1[f]); size_t b = p2 ? forms[f].find(parts2[f], a == std::string::npos ? 0 : a + parts1[f].size()) : 0;
+    printf("{\"e\":\"ModelText\",\"model\":\"%s\",\"num\":\"%s\",\"form\":\"%s\",\"type_ok\":%d,\"has_type_label\":%d,\"has_p1\":%d,\"has_p2_after_p1\":%d,\"stream_is_print\":%d,\"text\":\"%s\"}\n", mn, num, FN[f], (int)(base.GetType() == expect && m.GetType() == expect),
+           (int)(forms[f].find(f == 0 ? abbr : SnakeCase(abbr)) != std::string::npos), (int)(a != std::string::npos), (int)(b != std::string::npos), (int)(os.str() == forms[0]), jesc(forms[f]).c_str()); }
+}
+template <class T> static void model_text() { auto UV = Unit::DynamicViscosity::PascalSecond;
+  ShearModulus<T> mu((T)1.25L, PA); LameFirstModulus<T> lam((T)-0.001L * 3, PA); Solid<T> so(mu, lam); model_text_one("elastic", NN<T>::c, so, ConstitutiveModel::Type::ElasticIsotropicSolid, mu, &lam);
+  DynamicViscosity<T> dv((T)12345.678L, UV); BulkDynamicViscosity<T> bv((T)0.1L, UV); CFluid<T> cf(dv, bv); model_text_one("compressible", NN<T>::c, cf, ConstitutiveModel::Type::CompressibleNewtonianFluid, dv, &bv);
+  IFluid<T> inf(dv); model_text_one<IFluid<T>, DynamicViscosity<T>, DynamicViscosity<T>>("incompressible", NN<T>::c, inf, ConstitutiveModel::Type::IncompressibleNewtonianFluid, dv, nullptr); }
 template <class TM> static void maps_real_for(uint64_t seed, int n) { maps_real<TM, float>(seed, n); maps_real<TM, double>(seed, n); maps_real<TM, long double>(seed, n); }
 template <class TM> static void exact_for_model(std::mt19937_64& g) {
   elastic_maps_exact<TM, float>(g); elastic_maps_exact<TM, double>(g); elastic_maps_exact<TM, long double>(g);
@@ -182,7 +197,7 @@ template <class TM> static void exact_for_model(std::mt19937_64& g) {
 int main(int argc, char** argv) {
   std::string mode = argc > 1 ? argv[1] : "exact"; uint64_t seed = argc > 2 ? strtoull(argv[2], 0, 10) : 1; int n = argc > 3 ? atoi(argv[3]) : 1000; std::mt19937_64 g(seed);
   if (mode == "exact") { elastic_ctor_exact<float>(); elastic_ctor_exact<double>(); elastic_ctor_exact<long double>();
-    exact_for_model<float>(g); exact_for_model<double>(g); exact_for_model<long double>(g); one_arg<float>(); one_arg<double>(); one_arg<long double>(); }
+    exact_for_model<float>(g); exact_for_model<double>(g); exact_for_model<long double>(g); one_arg<float>(); one_arg<double>(); one_arg<long double>(); model_text<float>(); model_text<double>(); model_text<long double>(); }
   else if (mode == "cmp") { model_cmp<float>(g, n); model_cmp<double>(g, n); model_cmp<long double>(g, n); }
   else { elastic_real<float>(seed, n); elastic_real<double>(seed, n); elastic_real<long double>(seed, n); maps_real_for<float>(seed, n); maps_real_for<double>(seed, n); maps_real_for<long double>(seed, n); }
   return 0;
